@@ -463,11 +463,16 @@ def annot_variants(prog, module, sites, rng, cap, skips=None):
         cands.append(('targs', {'member': t['name'], 'kind': t['kind'], 'called': t['called'], 'type_arguments': txt,
                                 'loc': t['name_loc']}, [(e, e, txt.encode(), 0)]))
     if len(cands) > cap:
-        # keep the three kinds represented
+        # keep the three kinds represented; candidates whose written type mentions a type variable or nests a generic class
+        # are rare and are always kept (a bare upper-case letter or `<...<` in the text of the type)
+        def generic_type(c):
+            txt = ' '.join(str(c[1].get(k, '')) for k in ('type', 'types', 'type_arguments'))
+            return re.search(r'\b[A-Z]\b', txt) is not None or re.search(r'<[^<>]*<', txt) is not None
         kinds = {}
-        for c in rng.shuffle(cands):
+        always = [c for c in cands if generic_type(c)]
+        for c in rng.shuffle([c for c in cands if not generic_type(c)]):
             kinds.setdefault(c[0], []).append(c)
-        picked = []
+        picked = list(always)
         while len(picked) < cap and any(kinds.values()):
             for k in sorted(kinds):
                 if kinds[k] and len(picked) < cap:
